@@ -554,9 +554,37 @@ def r_registration_first(cx):
                 key = mir.strip_refs(a[1]) if len(a) > 1 else None
                 if key == ("arg", 2) or (key is not None and key[0] == "arg"):
                     lookups.append(bb)
+        # the side of each look-up on which nothing was registered under the name
+        absent = []
+        for lb in lookups:
+            for b2 in sorted(f.reachable()):
+                sw = f.term(b2)
+                if sw["k"] != "switch":
+                    continue
+                d = f.operand(sw["discr"], f.end_point(b2))
+                tg = dict((v, x) for v, x in sw["targets"])
+                if d[0] == "discr":
+                    src = mir.strip_refs(d[1])
+                    if src[0] == "call" and src[3] == lb:
+                        absent.append(tg.get(0, sw["otherwise"] if 1 in tg else None))
+                else:
+                    src = mir.strip_refs(d)
+                    neg = False
+                    while src[0] == "un" and src[1] == "Not":
+                        src, neg = mir.strip_refs(src[2]), not neg
+                    if src[0] == "call" and src[3] == lb and (f.callee(f.term(lb)) or "").endswith("contains_key"):
+                        absent.append(sw["otherwise"] if neg else tg.get(0))
+        absent = [x for x in absent if x is not None]
         for k, (bb, t) in enumerate(reads):
             n += 1
             ok = any(f.dominates(x, bb) for x in lookups)
+            if ok:
+                only_absent = any(f.dominates(x, bb) for x in absent)
+                cx.ob("R-REGISTRATION-FIRST", "%s/read%d/only-if-absent" % (name, k), only_absent,
+                      "the file is read only where the name turned out not to be registered at run time" if only_absent else
+                      "%s looks the name up among the run-time registrations but reads the resource files whatever the "
+                      "outcome: a file-based definition of the same name wins over the registered one" % name,
+                      cx.where(t["span"]))
             cx.ob("R-REGISTRATION-FIRST", "%s/read%d" % (name, k), ok,
                   "the file read is reached only after the run-time registrations have been searched for the name" if ok
                   else "%s can read a resource file without first looking the name up among the run-time "
@@ -960,3 +988,54 @@ def r_register_found(cx):
                       "%s can answer `no such item` after it has found the tag of the register item: an item that is the last of "
                       "its file and lacks the closing fence is not found any more" % h, cx.where(g.term(fb)["span"]))
     cx.count("R-REGISTER-FOUND", "tag_searches", n)
+
+
+@rule("R-FILE-BEFORE-REGISTER", ["C18"])
+def r_file_before_register(cx):
+    """In each directory of the search path Plain looks for a macro first in its own file (`prefix_suffix.resource`), then in
+    the register of the prefix (`prefix.md`) - as documented; a definition in a separate file wins over a register item
+    of the same name. In the loop over the paths of get_resource, the read of the `.resource` file comes before
+    (dominates) the read of the `.md` register."""
+    name = "<context::plain::Plain as context::Context>::get_resource"
+    if not cx.f.has_fn(name):
+        cx.ob("R-FILE-BEFORE-REGISTER", "anchor", False, "anchor-missing: %s" % name)
+        return
+    f = cx.f.fn(name)
+
+    def pushed_literals(t, depth=0):
+        out = []
+
+        def vis(y):
+            if y[0] == "mod" and isinstance(y[2], tuple) and isinstance(y[2][0], int) and depth < 4:
+                for a in f.arg_terms(y[2][0])[1:]:
+                    v = a
+                    if mir.strip_refs(v)[0] == "refplace":
+                        v = f.local_value(mir.strip_refs(v)[2], f.end_point(y[2][0]))
+                    elif a[0] == "refplace":
+                        v = f.local_value(a[2], f.end_point(y[2][0]))
+                    out.extend(pushed_literals(v, depth + 1))
+            if y[0] == "const" and isinstance(y[2], tuple) and y[2][0] == "str":
+                out.append(y[2][1])
+            return True
+        mir.walk(t, vis)
+        return out
+    reads = []
+    for bb, t in f.calls():
+        if (f.callee(t) or "").endswith("read_to_string") and f.innermost_loop(bb) is not None:
+            lits = pushed_literals(f.arg_terms(bb)[0])
+            kind = "file" if any(x.endswith(".resource") for x in lits) else ("register" if any(x.endswith(".md") for x in lits) else None)
+            reads.append((bb, kind, t))
+    files = [bb for bb, k, _ in reads if k == "file"]
+    regs = [(bb, t) for bb, k, t in reads if k == "register"]
+    n = 0
+    for rb, t in regs:
+        n += 1
+        ok = any(f.dominates(fb, rb) for fb in files)
+        cx.ob("R-FILE-BEFORE-REGISTER", "get_resource/register%d" % (n - 1), ok,
+              "the register is searched after the separate resource file of the same directory" if ok else
+              "get_resource searches the register (`prefix.md`) without having looked for the separate `.resource` file of that "
+              "directory first: a register item wins over the file of the same macro name", cx.where(t["span"]))
+    cx.count("R-FILE-BEFORE-REGISTER", "register_reads", n)
+    if n == 0:
+        cx.ob("R-FILE-BEFORE-REGISTER", "unrecognised", True,
+              "the file names read by get_resource could not be classified (not judged)", nontrivial=False)
